@@ -495,10 +495,14 @@ func (x *sbExec) do(a sbAct) bool {
 		}
 		x.release(key, a.Ok)
 	case "fetch":
-		for t := 0; t < sbNT; t++ { // a fetch would join the partition's init flight and block this goroutine
-			if x.has(fmt.Sprintf("no:%d", t)) || x.has(fmt.Sprintf("ct:%d", t)) {
-				return false
-			}
+		// only once the partition's log is registered: otherwise the fetch joins the init
+		// flight of a produce request (singleflight) whose store calls are gated, and this
+		// goroutine -- the one that releases the gates -- would block
+		x.h.logMu.RLock()
+		_, registered := x.h.logs[sbTopic][sbPart]
+		x.h.logMu.RUnlock()
+		if !registered {
+			return false
 		}
 		x.tags["fetch"] = true
 		inflight := false
